@@ -233,7 +233,8 @@ class Run:
 
     def read(self, k=10 ** 6):
         recs = self.g.read(k)
-        self.log.append({"a": "read", "k": len(recs) if k >= 10 ** 6 else k, "raw": [list(r) for r in recs]})
+        self.log.append({"a": "read", "k": len(recs) if k >= 10 ** 6 else k, "raw": [list(r) for r in recs],
+                         "maps": self.g.reader_maps() if self.g._reader_parked else None})
         return recs
 
     def emit(self):
@@ -326,6 +327,7 @@ def compare(run: Run, out):
     if out[0] == "initfail":
         return [("model construction failed", 0, None, None)]
     obs = out[3] if out[0] == "crash" else out[1]
+    states = (out[5] if len(out) > 5 else None) if out[0] == "crash" else (out[3] if len(out) > 3 else None)
     real_raw, model_raw = [], []
     for i, e in enumerate(run.log):
         if i >= len(obs):
@@ -344,6 +346,16 @@ def compare(run: Run, out):
             if canon_cookies(model_raw) != canon_cookies(real_raw):
                 diffs.append(("raw kernel records handed to the reader", i, canon_cookies(model_raw)[-6:], canon_cookies(real_raw)[-6:]))
                 break
+            if states is not None and i < len(states) and isinstance(states[i], list) and e.get("maps"):
+                m_wfp = {bytes.fromhex(x[0][1:]): int(x[1]) for x in states[i][0]}
+                m_pfw = {int(x[0]): bytes.fromhex(x[1][1:]) for x in states[i][1]}
+                r_wfp, r_pfw = e["maps"]
+                if m_wfp != r_wfp or m_pfw != r_pfw:
+                    def dd(a, b):
+                        return sorted((k, a.get(k), b.get(k)) for k in set(a) | set(b) if a.get(k) != b.get(k))[:6]
+                    diffs.append(("reader book-keeping after the read (_wd_for_path / _path_for_wd; key, model, real)", i,
+                                  {"wd_for_path": dd(m_wfp, r_wfp), "path_for_wd": dd(m_pfw, r_pfw)}, None))
+                    break
         elif e["a"] == "emit":
             mev = [[x[0], bytes.fromhex(x[1][1:]), bytes.fromhex(x[2][1:]), x[3] == "1"] for x in o[1:]] if isinstance(o, list) else None
             rev = e["events"]
@@ -354,7 +366,7 @@ def compare(run: Run, out):
 
 
 # ------------------------------------------------------------------ generator
-NAMES = ["a", "b", "c"]
+NAMES = ["a", "b", "ab"]        # one name is a proper prefix of another (string-prefix vs path-component bugs)
 
 
 class Shadow:
@@ -599,6 +611,8 @@ def gen_history_renames(rng, n_renames=4):
         p = p + (rng.choice(NAMES),)
         do("mkdir", p, drain=rng.random() < 0.6)
         if rng.random() < 0.5:
+            do("mkdir", p[:-1] + (p[-1] + "2",), drain=rng.random() < 0.6)     # a sibling whose name extends this one (d, d2)
+        if rng.random() < 0.5:
             do("touch", p + ("f",), drain=False)
         if rng.random() < 0.4:
             do("mkdir", p + (next(fresh),), drain=rng.random() < 0.5)
@@ -610,8 +624,15 @@ def gen_history_renames(rng, n_renames=4):
         # prefer directories that have sub-directories
         withsub = [d for d in dirs if any(sh.ent.get(c) for c in sh.children(d))]
         d = rng.choice(withsub or dirs)
+        twins = [x for x in dirs if x[:-1] + (x[-1] + "2",) in sh.ent]
+        if twins and rng.random() < 0.5:
+            d = rng.choice(twins)
         r = rng.random()
-        if r < 0.6:
+        empties = [e for e in dirs if not sh.children(e) and e[:len(d)] != d and d[:len(e)] != e]
+        if r < 0.25 and empties:
+            # take over the name of an existing empty directory (its late IN_IGNORED must not hurt the newcomer)
+            do("rename", d, rng.choice(empties))
+        elif r < 0.6:
             do("rename", d, d[:-1] + (next(fresh),))
         elif r < 0.8:
             # to another parent inside the tree
@@ -621,6 +642,14 @@ def gen_history_renames(rng, n_renames=4):
             out = ("O", next(fresh))
             if do("rename", d, out):
                 do("rename", out, rng.choice(sh.dirs("R")) + (next(fresh),))
+        if rng.random() < 0.3:
+            # a sibling whose name extends the name of a directory (d, d2)
+            dd = rng.choice(dirs)
+            if dd in sh.ent:
+                do("mkdir", dd[:-1] + (dd[-1] + "2",))
+    # some activity in the final tree
+    for dd in rng.sample(sh.dirs("R"), min(3, len(sh.dirs("R")))):
+        do("touch", dd + ("g",), drain=False)
     hist.append(["drain"])
     return hist
 
